@@ -4,8 +4,15 @@ set -u
 patch="$1"; shift
 cd /repo || exit 2
 if [ -n "$(git status --porcelain)" ]; then echo "/repo not clean"; exit 2; fi
-git apply "$patch" || { echo "patch does not apply"; exit 2; }
 trap 'git -C /repo checkout -- . ; git -C /repo clean -fdq' EXIT
+if ! git apply "$patch" 2>/dev/null; then
+  # the seed was made before a later fix: commit touched the same lines: undo that commit in the working tree first
+  ok=0
+  for c in ${REVERT:-78ebd0b}; do
+    git checkout -q -- . ; git show "$c" | git apply -R && git apply "$patch" && { echo "(applied on top of the tree without $c)"; ok=1; break; }
+  done
+  [ $ok = 1 ] || { echo "patch does not apply"; exit 2; }
+fi
 cd /verif
 for p in "$@"; do
   echo "=== $p with $(basename $(dirname $patch))/$(basename $patch)"
